@@ -41,6 +41,11 @@ def any_game(rng, n, klass):
     return [0] + [rng.randint(-9, 9) for _ in range(2 ** n - 1)]
 
 
+def regen(ctx):
+    import registry_dump
+    registry_dump.regen_registry()
+
+
 def run(ctx, proof):
     rng = ctx.rng
     comps = list(BOUNDS.keys())
